@@ -437,7 +437,7 @@ pub fn run_case(ctx: &Ctx, idx: u64) -> Vec<CaseOut> {
         let stride = if reader == Reader::LzipMt { 23 } else { 1 };
         let n = base.bytes.len();
         let mut counter = 0usize;
-        let mut sampled = |counter: &mut usize| -> bool {
+        let sampled = |counter: &mut usize| -> bool {
             *counter += 1;
             *counter % stride == 0
         };
